@@ -918,6 +918,8 @@ def plan(tier):
             p.append((LifecycleAdapter([n], rd=0, listener=True), 4, 30000, 1500))
             if c["kind"] == "service":
                 p.append((LifecycleAdapter([n], rd=2, prefix=[("req", 0, "restart")] + [("tick",)] * 4), 5, 60000, 1500))
+                p.append((LifecycleAdapter([n], rd=3, prefix=[("req", 0, "restart"), ("tick",), ("req", 0, "disable"),
+                                                              ("req", 0, "enable"), ("req", 0, "start")]), 5, 60000, 1500))
             if c["kind"] == "application" and not c["system"]:
                 p.append((LifecycleAdapter([n], rd=1, init="running"), 6, 60000, 1500))
         for pr in _pairs(items):
@@ -933,6 +935,9 @@ def plan(tier):
             if c["kind"] == "service":
                 # start state: the service has been restarted once and is running again (a second timed transition)
                 p.append((LifecycleAdapter([n], rd=2, api=False, prefix=[("req", 0, "restart")] + [("tick",)] * 4), 3, 4000, 120))
+                # ... and: a restart that was cut short (disabled one step into it), then enabled and started again
+                p.append((LifecycleAdapter([n], rd=3, api=False, prefix=[("req", 0, "restart"), ("tick",), ("req", 0, "disable"),
+                                                                        ("req", 0, "enable"), ("req", 0, "start")]), 3, 4000, 120))
         for pr in _pairs(items):
             p.append((LifecycleAdapter(pr, rd=1, init="running"), 2, 2000, 120))
     return p
